@@ -433,6 +433,51 @@ def check(repo):
     from .c12 import check_writeback_freshness
     check_writeback_freshness(repo, r7)
 
+    # ---------------------------------------------------------------- R9.10
+    # The sid is the digest of pickle.dumps(config).  pickle is not a canonical encoding (objects shared inside the dict are memoised,
+    # so the in-memory dict and the one reloaded from config.json or received over the wire pickle differently): the digest names the
+    # service, it cannot be recomputed from a configuration that travelled.  Who may derive it: the client's create-service, once.
+    r10 = Rule("R9.10", "the service id is derived once, at creation, and is an opaque name afterwards (a digest of a pickle cannot be re-derived from a stored or received configuration)")
+    rules.append(r10)
+
+    def _pickle_digest(node):
+        """hash of pickle.dumps(..) inside `node`: through a local or nested directly"""
+        dumped = {t.id for st in ast.walk(node) if isinstance(st, ast.Assign) and isinstance(st.value, ast.Call) and (dotted(st.value.func) or "").endswith("pickle.dumps")
+                  for t in st.targets if isinstance(t, ast.Name)}
+        for c in ast.walk(node):
+            if isinstance(c, ast.Call) and ((dotted(c.func) or "").startswith("hashlib.") or (dotted(c.func) or "").split(".")[-1] in ("sha256", "sha1", "sha512", "md5", "blake2b")):
+                for a in ast.walk(c):
+                    if (isinstance(a, ast.Name) and a.id in dumped) or (isinstance(a, ast.Call) and (dotted(a.func) or "").endswith("pickle.dumps")):
+                        return True
+        return False
+    derivers, inline_sites = [], []
+    for rel, m in sorted(repo.modules.items()):
+        if not (rel.startswith("frontend/") or rel in ("run_client.py", "run_server.py")):
+            continue
+        for fi in m.all_functions():
+            if _pickle_digest(fi.node):
+                if len(fi.params) == 1 and fi.cls is None:
+                    derivers.append(fi)
+                else:
+                    inline_sites.append(fi)
+    hcc = repo.func(F.CLI, "Service.handle_create_config")
+    call_sites = []
+    dnames = {d.name for d in derivers}
+    for rel, m in sorted(repo.modules.items()):
+        if not (rel.startswith("frontend/") or rel in ("run_client.py", "run_server.py")):
+            continue
+        for fi in m.all_functions():
+            for c in ast.walk(fi.node):
+                if isinstance(c, ast.Call) and (dotted(c.func) or "").split(".")[-1] in dnames:
+                    call_sites.append((fi, c))
+    for fi in inline_sites:
+        r10.require(fi.key == hcc.key, fi, "digest of a pickled object", "%s hashes pickle.dumps(...) of an object: only the creation of a service may derive an id that way" % fi.qual)
+    for fi, c in call_sites:
+        r10.require(fi.key == hcc.key, fi, "sid derivation called from %s" % fi.qual,
+                    "%s re-derives the service id from a configuration (%s): the id is sha256(pickle.dumps(config)) and pickle output depends on object sharing inside the dict, "
+                    "so a configuration that was reloaded from disk or received over the wire hashes differently - the comparison then refuses the rightful owner" % (fi.qual, short(c)), c)
+    r10.require(len(call_sites) + sum(1 for f in inline_sites if f.key == hcc.key) >= 1, hcc, "sid derivation floor", "the derivation of the service id from the configuration was not found")
+
     # ---------------------------------------------------------------- R9.6
     se = repo.func(F.CLI_CMD, "search")
     qse = Q(repo, se)
